@@ -129,7 +129,7 @@ Fixpoint frag0 (p : alg) : bool :=
   | BGP _ => true
   | Union a b => frag0 a && frag0 b
   | Project q _ => frag0 q
-  | Graph _ q => frag0 q
+  | Graph (Vr _) q => frag0 q
   | _ => false
   end.
 
@@ -140,9 +140,8 @@ Proof.
   - cbn [eval_td eval_bu]. rewrite eval_bgp_ext. apply bgp_ext_perm; [apply sort_ts_perm|reflexivity].
   - apply andb_true_iff in F as [F1 F2]. cbn. apply Permutation_app; auto.
   - cbn. apply Permutation_map. auto.
-  - destruct g as [t|v]; cbn.
-    + auto.
-    + apply flat_map_perm_pointwise. intros ng _. apply join_lists_perm_l. auto.
+  - destruct g as [t|v]; [discriminate|]. cbn.
+    apply flat_map_perm_pointwise. intros ng _. apply join_lists_perm_l. auto.
 Qed.
 
 Definition in_frag0 (c : case) : bool := frag0 (c_alg c).
@@ -180,11 +179,11 @@ Lemma findings_refuted : refuted w1 /\ refuted w2 /\ refuted w3 /\ refuted w4 /\
 Proof. repeat split; vm_compute; reflexivity. Qed.
 
 (* the proved fragment lies inside the region where no trigger fires *)
-Lemma scan_frag0 p : frag0 p = true -> forall inex, scan inex [] p = 0.
+Lemma scan_frag0 p : frag0 p = true -> forall names inex, scan names inex [] p = 0.
 Proof.
-  induction p; cbn [frag0]; try discriminate; intros F inex; cbn [scan].
+  induction p; cbn [frag0]; try discriminate; intros F names inex; cbn [scan].
   - reflexivity.
   - apply andb_true_iff in F as [F1 F2]. rewrite IHp1, IHp2 by assumption. reflexivity.
   - cbn. apply IHp, F.
-  - apply IHp, F.
+  - destruct g as [t|v]; [discriminate|]. cbn. rewrite andb_false_r. cbn. apply IHp, F.
 Qed.
